@@ -3,6 +3,7 @@ package main
 import (
 	"math/rand"
 	"os"
+	"strings"
 	"time"
 )
 
@@ -37,6 +38,8 @@ func checkC09(r *Run) {
 	rng := rand.New(rand.NewSource(r.Seed))
 	g := newMatchGen(rng, pick(r, 6, 10), pick(r, 12, 28), 3, 3, pick(r, 24, 50), true)
 	g.Hosts = withHostSpellings(g.Hosts, 2)
+	// a {param} label stands for a label part of any length: the 255-byte limit is a limit of patterns, not of hosts
+	g.Hosts = append(g.Hosts, strings.Repeat("a", 256)+".b", "a."+strings.Repeat("ab", 140), strings.Repeat("b", 130)+"."+strings.Repeat("a", 130)+".b:8080")
 	runMatchD1(r, g, "all", false, pick(r, 5*time.Minute, 40*time.Minute))
 	runMatchD2(r, false, true)
 	r.assumption("hostname comparison is exact and case-sensitive after removing one port and one trailing dot")
